@@ -354,3 +354,7 @@ for _p in ("C02", "C09", "C10"):
 
 PROPS["C09"]["not_decided"] = [x for x in PROPS["C09"].get("not_decided", []) if not x.startswith("strict sortedness of the class section")] + [
     "string-section validity (watto); the strict order of the class section by resolved name, the name order of each class's member records and the (name, parameters) order of its by-params records ARE proved for what the writer collects (u23, given BTreeMap's ascending iteration order and the string-table round trip)"]
+
+PROPS["C01"].setdefault("assumed", [])
+PROPS["C01"]["assumed"] = [x for x in PROPS["C01"]["assumed"] if not x.startswith("independence of line endings")] + [
+    "independence of line endings / blank / unparseable lines is not decided here (see C06); independence of the ORDER of distinctly named class blocks is proved (u23: built(pre ++ b1 ++ b2 ++ post) == built(pre ++ b2 ++ b1 ++ post))"]
